@@ -1,6 +1,10 @@
 package c13
 
-import "verif/harness/pbt"
+import (
+	"time"
+
+	"verif/harness/pbt"
+)
 
 // restartDuringDrainCase is the breaker's sequence (round 7, remark 1) on a generic PacketConn:
 // a handler of run 1 is held, ShutdownContext gives up on its context, the same Server value is
@@ -20,14 +24,57 @@ func restartDuringDrainCase() Scenario {
 	}
 }
 
+// listenRestartCase is remark 1 of round 8: Server{Net: "udp", Addr: "127.0.0.1:0"} is started with
+// ListenAndServe, the handler of request (1,1) is held, ShutdownContext(ctx) is called and waits;
+// ListenAndServe is called again on the same value and succeeds on a new port (Shutdown has cleared
+// the flag); a request of run 2 is inside its handler when the context of the first Shutdown is
+// cancelled: on its way out that call closes "srv.PacketConn" - read there, without the lock - which
+// by now is the socket of run 2.
+func listenRestartCase() Scenario {
+	return Scenario{
+		Transport: "lnsUDP", MaxTCP: -1,
+		Clients:    []Client{{Reqs: []Req{{Mode: "late", Until: "release"}}, Close: "end"}},
+		Trigger:    "handler.enter(1,1)",
+		FallbackMs: 150, HoldMs: 5,
+		Ctx: "expireAt", CtxAt: "release1",
+		Misuse:  []Misuse{{Op: "restartAfterShutdown"}},
+		Restart: Restart{When: "shutting", Reqs: []string{"late"}, At: "entered", HoldMs: 10, Release1: "entered2"},
+	}
+}
+
+// sdInsideFailingStartCase is remark 3 of round 8: ActivateAndServe on a generic PacketConn with a
+// DecorateReader whose Reader has no ReadPacketConn; Shutdown is called (on its own goroutine) from
+// inside that DecorateReader call, which returns once Shutdown has set the past read deadline, i.e.
+// has seen started == true and cleared it. serveUDP then returns its error without closing the
+// channel that Shutdown is waiting on.
+func sdInsideFailingStartCase() Scenario {
+	return Scenario{
+		Transport: "memPacket", MaxTCP: -1,
+		Trigger:    "srv.started",
+		FallbackMs: 60,
+		Ctx:        "background",
+		Misuse:     []Misuse{{Op: "failedStart", At: "readerWithoutPacketConn", Sd: "decorate"}},
+	}
+}
+
 func init() {
 	pbt.Probe(knownRestartDrain, func() error {
 		_, err := runScenario(restartDuringDrainCase())
+		return err
+	})
+	pbt.Probe(knownListenRestart, func() error {
+		_, err := runScenario(listenRestartCase())
+		return err
+	})
+	pbt.Probe(knownSdInsideFailingStart, func() error {
+		_, err := runScenarioOpt(sdInsideFailingStartCase(), 3*time.Second)
 		return err
 	})
 	pbt.Register(pbt.Sub[Scenario]{Name: "scenario-mem", Weight: 1, Gen: genMem, Check: checkScenario})
 	pbt.Register(pbt.Sub[Scenario]{Name: "scenario-real", Weight: 0.3, Gen: genReal, Check: checkScenario})
 	// restarts of the same Server value: after a Shutdown that completed or gave up on its context, and during the drain
 	pbt.Register(pbt.Sub[Scenario]{Name: "scenario-restart", Weight: 0.15, Gen: genRestart, Check: checkScenario})
+	// the same through ListenAndServe (the library makes the sockets and replaces them in the Server value), and restarts while Shutdown is still waiting
+	pbt.Register(pbt.Sub[Scenario]{Name: "scenario-listen", Weight: 0.12, Gen: genListen, Check: checkScenario})
 	pbt.Register(pbt.Sub[Stress]{Name: "stress", Weight: 0.5, Gen: genStress, Check: checkStress})
 }
